@@ -18,18 +18,28 @@ Singles(s) ==
 (* All pairs would be quadratic in the size of the seed; emitted are the pairs that can *)
 (* interact: edits at most NearBy(s) bytes apart, any two SetValue mutations (image     *)
 (* attributes multiply), and SetValue with anything inside the Pixel Data element.      *)
-NearBy(s) == IF s.kind = "text" THEN 6 ELSE 48
-Coupled(s, m1, m2, e1, e2, ps) ==
-  \/ e2.at - e1.at <= NearBy(s)
-  \/ (m1.m = "SetValue" /\ m2.m = "SetValue")
-  \/ (m1.m = "SetValue" /\ e2.at >= ps /\ ps < s.n)
+NearBy(s) == IF s.kind = "text" THEN 4 ELSE 32
+Coupled(s, x, y, ps) ==
+  \/ y.e.at - x.e.at <= NearBy(s)
+  \/ (x.m.m = "SetValue" /\ y.m.m = "SetValue")
+  \/ (x.m.m = "SetValue" /\ y.e.at >= ps /\ ps < s.n)
+PairCase(s, x, y) ==
+  LET es == <<x.e, y.e>>
+      small == s.n <= 64 /\ NoGarbage(es) /\ \A i \in 1..2 : es[i].rep * Len(es[i].ins) <= 64
+  IN IF small THEN [seed |-> s.name, muts |-> <<x.m, y.m>>, edits |-> es, bytes |-> ApplyAll(s.bytes, es)]
+     ELSE [seed |-> s.name, muts |-> <<x.m, y.m>>, edits |-> es]
 PairsOf(s) ==
-  LET C  == MutsCore(s)
-      ps == PixStart(s)
-  IN \A m1 \in C : LET e1 == EditOf(s, m1) IN
-       \A m2 \in C : LET e2 == EditOf(s, m2) IN
-         (m1 # m2 /\ (e1.at < e2.at \/ (e1.at = e2.at /\ m1.m # m2.m)) /\ Coupled(s, m1, m2, e1, e2, ps))
-            => PrintT(<<"CASE", ToJson(CaseOf(s, <<m1, m2>>))>>)
+  LET CE   == {[m |-> m, e |-> EditOf(s, m)] : m \in MutsCore(s)}   \* every edit is computed once
+      ps   == PixStart(s)
+      Ats  == {x.e.at : x \in CE}
+      ByAt == [a \in Ats |-> {x \in CE : x.e.at = a}]                \* index by offset
+      SV   == {x \in CE : x.m.m = "SetValue"}
+      Pix  == IF ps < s.n THEN {x \in CE : x.e.at >= ps} ELSE {}
+      Cand(x) == UNION {ByAt[a] : a \in (x.e.at .. x.e.at + NearBy(s)) \cap Ats}
+                 \cup (IF x.m.m = "SetValue" THEN SV \cup Pix ELSE {})
+  IN \A x \in CE : \A y \in Cand(x) :
+       (x.m # y.m /\ (x.e.at < y.e.at \/ (x.e.at = y.e.at /\ x.m.m # y.m.m)) /\ Coupled(s, x, y, ps))
+          => PrintT(<<"CASE", ToJson(PairCase(s, x, y))>>)
 
 VARIABLE i
 Init == i = 1
